@@ -28,7 +28,7 @@ theorem aliasLoop_adv (fuel : Nat) : ∀ {acc : List Tok} {s s' : PS} {toks : Li
 
 theorem parseAlias_adv {s s' : PS} {x : String × List Tok} (h : parseAlias s = .ok (x, s')) :
     ∃ new, Adv s s' new := by
-  unfold parseAlias at h
+  unfold parseAlias parseAliasWith at h
   simp only [bind_ok, Prod.exists] at h
   obtain ⟨c1, s1, h1, h⟩ := h
   split at h
